@@ -267,6 +267,9 @@ def main(tier: str, budget_s: Optional[float] = None) -> int:
     total.merge(t2)
     info += i2
     complete = complete and c2
+    from rp2verif.lotrun import run_bundled
+
+    complete = run_bundled(__name__, total, info, deadline) and complete
     # the schedule as rp2_main gets it: written to a config file (every order of the lines), read back by the real Configuration
     import itertools
 
